@@ -603,7 +603,7 @@ def check_C08(ctx):
 
 def check_C02(ctx):
     return run_message_property(ctx, dict(
-        theorems=["C02_value_rules", "C02_field", "C02_tag", "C02_loop_is_dispatch", "C02_flat_message", "C02_every_decode_body", "C02_varint_reader", "C02_unmarshal_is_reference_decoder", "C02_exchange_records_reference", "C02_exchange_records_unmarshal", "C02_split_submessage"],
+        theorems=["C02_value_rules", "C02_field", "C02_tag", "C02_loop_is_dispatch", "C02_flat_message", "C02_every_decode_body", "C02_varint_reader", "C02_unmarshal_is_reference_decoder", "C02_exchange_records_reference", "C02_exchange_records_unmarshal", "C02_split_submessage", "C02_replace_records", "C02_packed_unpacked_reference", "C02_packed_unpacked_unmarshal", "C02_packed_split", "C02_same_meaning_records", "C02_nonminimal_varint"],
         suites=lambda c: [("decv", ["decv", c.seed, _n(c, 8000, 60000)])],
         prop={"dec": lambda r: r["ist"] == "ok" and r["ost"] == "ok" and r["flags"].get("c02") == "ok"},
         tie={"dec": tie_dec_val}, spec={"dec": spec_dec}, nontrivial=nontrivial_any, rule=DEC_RULE + " (valid stream only); oracle: proto.Unmarshal of the same bytes"))
